@@ -140,7 +140,10 @@ INS_OPTIONS = {
     "reparameterisation": [None, "logit"],
     "stopping_criterion": ["ratio", "ratio_all", "ratio_ns", "Z_err",
                            "evidence_error", "log_dZ", "log_evidence", "ess",
-                           "fractional_error"],
+                           "fractional_error",
+                           # several criteria, listed in an order of their own
+                           ["log_dZ", "ratio"], ["fractional_error", "ess"],
+                           ["ess", "evidence_error", "log_evidence"]],
     "tolerance": [1.0],
     "check_criteria": ["all"],
     "min_iteration": [2],
@@ -194,6 +197,11 @@ def apply(base, model, opts):
             "tolerance" not in kw and kw["stopping_criterion"] in (
                 "Z_err", "evidence_error"):
         kw["tolerance"] = 1.1
+    if isinstance(kw.get("stopping_criterion"), list) and \
+            "tolerance" not in kw:
+        tol = {"log_dZ": 0.5, "ratio": 0.0, "fractional_error": 0.2,
+               "ess": 300.0, "evidence_error": 1.2, "log_evidence": 0.5}
+        kw["tolerance"] = [tol[c] for c in kw["stopping_criterion"]]
     return model, kw, run_kwargs
 
 
@@ -269,7 +277,9 @@ def to_case(spec, default_seed):
 
 
 def make_history(case):
-    mons = ["draws"]
+    # importance sampler: the stopping rule in use must be the configured one
+    # (a mis-paired criterion / tolerance ends only at the iteration cap)
+    mons = ["draws"] + (["ins_stop"] if case.get("ins") else [])
     return configs.history_from(case, mons, post=["results"])
 
 
